@@ -20,6 +20,7 @@ const (
 func init() {
 	register("C19", func(c *core.Ctx, tier string) {
 		c19Protocol(c)
+		c19Cancelled(c, "C19.5")
 		c19LoopStop(c)
 		c19Pairing(c)
 		c19WhoClears(c)
@@ -188,7 +189,7 @@ func c19Protocol(c *core.Ctx) {
 		g := st.Graph()
 		info := st.Info()
 		stopTrue := func(u *core.Unit, br core.Branch) int {
-			ce, ok := ast.Unparen(br.Cond).(*ast.CallExpr)
+			ce, ok := ast.Unparen(u.Deep(br.Cond)).(*ast.CallExpr) // `pending := t.timer.Stop(); if pending` is the same test
 			if !ok {
 				return 0
 			}
@@ -279,33 +280,44 @@ func c19Protocol(c *core.Ctx) {
 		}
 		restarts, resets := 0, 0
 		okRestart, okReset := true, false
+		notCancelled := timerCancelledIs(false)
+		// the facts that may license an action of Refresh: the fired test and "not cancelled" (fix 738a64c)
+		onlyLicensed := func(loc core.Loc, alsoFired bool) bool {
+			for _, f := range g.Facts() {
+				if !g.EdgeDominates(f.Br.B, f.Edge, loc) {
+					continue
+				}
+				if notCancelled(rf, f.Br) != 0 || (alsoFired && stopFalse(rf, f.Br) != 0) {
+					continue
+				}
+				return false
+			}
+			return true
+		}
 		for _, cl := range rf.Calls() {
 			if cl.Go && fieldOf(info, cl.Expr.Fun) == "Timer.fn" {
 				restarts++
 				okRestart = okRestart && g.GuardedBy(cl.Loc, stopFalse)
 				// exactly on that edge: no further condition (a fired timer whose callback is still running, or any
 				// other state, must not suppress the new waiter — the re-armed runtime timer would tick with nobody
-				// listening and a later Stop would block on the signal)
-				for _, f := range g.Facts() {
-					if g.EdgeDominates(f.Br.B, f.Edge, cl.Loc) && stopFalse(rf, f.Br) == 0 {
-						okRestart = false
-					}
-				}
+				// listening and a later Stop would block on the signal); a cancelled timer is the one exception:
+				// it is not refreshed at all
+				okRestart = okRestart && onlyLicensed(cl.Loc, true)
 			}
 			if cl.Name == "Reset" && cl.Recv != nil && fieldOf(info, cl.Recv) == "Timer.timer" && fieldOf(info, cl.Arg(0)) == "Timer.sleep" {
 				resets++
-				if cl.Deferred {
-					okReset = cl.Loc.B == g.C.Blocks[0] // registered unconditionally at entry
-				} else {
-					okReset = true
-					for _, r := range returnsIn(rf) {
-						okReset = okReset && g.Dominates(cl.Loc, r.Loc)
+				// on every path of a timer that was not cancelled: the only returns the Reset does not cover are on
+				// the cancelled edge, and nothing but "not cancelled" licenses it
+				okReset = onlyLicensed(cl.Loc, false)
+				for _, r := range returnsIn(rf) {
+					if !g.Dominates(cl.Loc, r.Loc) && !g.GuardedBy(r.Loc, timerCancelledIs(true)) {
+						okReset = false
 					}
 				}
 			}
 		}
-		c.Check(R, "utils.(*Timer).Refresh/restart-on-fired", rf.Pos(), restarts == 1 && okRestart, keyf("%d goroutine restart(s), only on the timer.Stop()==false edge: %v", restarts, okRestart))
-		c.Check(R, "utils.(*Timer).Refresh/reset-always", rf.Pos(), resets == 1 && okReset, keyf("%d timer.Reset(sleep), on every path: %v", resets, okReset))
+		c.Check(R, "utils.(*Timer).Refresh/restart-on-fired", rf.Pos(), restarts == 1 && okRestart, keyf("%d goroutine restart(s), exactly on the timer.Stop()==false edge of a timer that is not cancelled: %v", restarts, okRestart))
+		c.Check(R, "utils.(*Timer).Refresh/reset-always", rf.Pos(), resets == 1 && okReset, keyf("%d timer.Reset(sleep), on every path of a timer that is not cancelled: %v", resets, okReset))
 	}
 	// ClearTimeout / ClearInterval
 	if ct := c.Fn(R, clearTOKey); ct != nil {
@@ -386,8 +398,24 @@ func c19LoopStop(c *core.Ctx) {
 		}
 		c.Check(R, ctor+"$fn/exit-edge", body.Pos(), hasExit, "the goroutine has an exit edge from its wait point")
 		if inLoop {
-			c.Check(R, keyf("utils.(*Timer).Stop/conditional-signal×%s$fn(loop)", ctor), st.Pos(), !conditional,
-				"Timer.Stop signals only when timer.Stop() reports a pending timer, but this goroutine loops: a Stop between tick and re-arm is lost and the interval keeps ticking")
+			// either the signal is unconditional, or Stop leaves a record on every path that the loop consults before it
+			// re-arms (the cancelled flag, fix 738a64c; its discipline is rule C19.5)
+			flag := false
+			for _, a := range fieldAssigns(st, "Timer.cancelled") {
+				every := true
+				for _, r := range returnsIn(st) {
+					every = every && g.Dominates(a.Loc, r.Loc)
+				}
+				flag = flag || every
+			}
+			consulted := false
+			for _, cl := range body.Calls() {
+				if cl.Name == "Reset" && cl.Recv != nil && fieldOf(body.Info(), cl.Recv) == "Timer.timer" {
+					consulted = body.Graph().GuardedBy(cl.Loc, timerCancelledIs(false))
+				}
+			}
+			c.Check(R, keyf("utils.(*Timer).Stop/conditional-signal×%s$fn(loop)", ctor), st.Pos(), !conditional || (flag && consulted),
+				"Timer.Stop signals only when timer.Stop() reports a pending timer, but this goroutine loops: unless Stop records the cancellation on every path and the loop consults the record before re-arming, a Stop between tick and re-arm is lost and the interval keeps ticking")
 		}
 	}
 }
@@ -718,4 +746,144 @@ func c19HolderWrites(c *core.Ctx, R string) {
 		}
 	}
 	c.Need(R, "writes of the heartbeat timer holders", n, 2)
+}
+
+// timerCancelledIs: guard "Timer.cancelled == want", the flag read directly or
+// through a local that received it.
+func timerCancelledIs(want bool) core.Guard {
+	return func(u *core.Unit, br core.Branch) int {
+		if br.IsCase {
+			return 0
+		}
+		if fieldOf(u.Info(), u.Deep(br.Cond)) != "Timer.cancelled" {
+			return 0
+		}
+		if want {
+			return 1
+		}
+		return -1
+	}
+}
+
+// c19Cancelled — C19.5 (fix 738a64c): a cancellation is recorded where the
+// timer goroutine will find it. timer.Stop() reporting false means the tick was
+// already taken; without a record the callback of a cancelled timeout still
+// starts, a Refresh revives a cancelled timer, and an interval stopped between
+// its tick and its re-arm ticks forever (the former finding C19.2).
+func c19Cancelled(c *core.Ctx, R string) {
+	c.Rule(R, "cancellation protocol of utils.Timer: (a) Timer.cancelled is written only by Stop, to true, on every path, with Timer.mu held and in the same critical section as the runtime timer.Stop(); (b) every read of the flag is under Timer.mu; (c) on the tick arm of SetTimeout's goroutine the callback starts only on the not-cancelled edge; (d) on the tick arm of SetInterval's goroutine the re-arm (under the mutex) and `go fn()` are on the not-cancelled edge and the cancelled edge returns; (e) Refresh holds the mutex at its fired test, its restart and its Reset")
+	const muName = "Timer.mu"
+	writes, reads := 0, 0
+	for _, u := range c.P.Units {
+		if u.Pkg != c.P.Pkgs["utils"] {
+			continue
+		}
+		g := u.Graph()
+		info := u.Info()
+		for _, a := range fieldAssigns(u, "Timer.cancelled") {
+			writes++
+			c.Touch(u)
+			isTrue := false
+			if id, ok := ast.Unparen(a.Rhs).(*ast.Ident); ok && id.Name == "true" {
+				isTrue = true
+			}
+			every := true
+			for _, r := range returnsIn(u) {
+				every = every && g.Dominates(a.Loc, r.Loc)
+			}
+			// the runtime timer is stopped in the same critical section
+			same := false
+			for _, cl := range u.Calls() {
+				if cl.Name == "Stop" && cl.Recv != nil && fieldOf(info, cl.Recv) == "Timer.timer" && g.HeldAt(cl.Loc)[muName] && g.Dominates(a.Loc, cl.Loc) {
+					same = true
+				}
+			}
+			ok := u.Key == timerStopKey && isTrue && every && g.HeldAt(a.Loc)[muName] && same
+			c.Check(R, keyf("%s/cancelled=true", u.Key), a.Stmt.Pos(), ok, keyf("written by Stop: %v; to true: %v; on every path: %v; under Timer.mu: %v; runtime timer stopped in the same section: %v", u.Key == timerStopKey, isTrue, every, g.HeldAt(a.Loc)[muName], same))
+		}
+		ast.Inspect(u.Body, func(n ast.Node) bool {
+			if fl, isLit := n.(*ast.FuncLit); isLit && fl.Body != u.Body {
+				return false
+			}
+			if as, isAs := n.(*ast.AssignStmt); isAs {
+				for _, l := range as.Lhs {
+					if fieldOf(info, l) == "Timer.cancelled" {
+						return false // a write (counted above), not a read
+					}
+				}
+			}
+			se, isSel := n.(*ast.SelectorExpr)
+			if !isSel || fieldOf(info, se) != "Timer.cancelled" {
+				return true
+			}
+			reads++
+			c.Touch(u)
+			c.Check(R, keyf("%s/read(cancelled)#%d", u.Key, reads), se.Pos(), g.HeldAt(g.LocOf(se))[muName], "the flag is read with Timer.mu held")
+			return true
+		})
+	}
+	c.Need(R, "writes of Timer.cancelled", writes, 1)
+	c.Need(R, "reads of Timer.cancelled", reads, 3)
+	notCancelled := timerCancelledIs(false)
+	for _, ctor := range []string{setTimeoutKey, setIntervalKey} {
+		u := c.Fn(R, ctor)
+		if u == nil {
+			continue
+		}
+		body := c.KidOf(R, u, "fn")
+		if body == nil {
+			continue
+		}
+		g := body.Graph()
+		fnParam := paramName(u, 0)
+		_, arms, _ := timerSelect(body)
+		for _, a := range arms {
+			if a.Chan != "C" {
+				continue
+			}
+			starts, guarded := 0, true
+			ast.Inspect(a.Clause, func(x ast.Node) bool {
+				ce, isC := x.(*ast.CallExpr)
+				if isC && isLocal(body.Info(), ce.Fun, fnParam) {
+					starts++
+					guarded = guarded && g.GuardedBy(g.LocOf(ce), notCancelled)
+				}
+				return true
+			})
+			c.Check(R, ctor+"$fn/callback-only-when-not-cancelled", a.Clause.Pos(), starts == 1 && guarded, keyf("%d callback start(s) on the tick arm, each on the not-cancelled edge: %v", starts, guarded))
+			if ctor == setIntervalKey {
+				okRearm := false
+				for _, cl := range body.Calls() {
+					if cl.Name == "Reset" && cl.Recv != nil && fieldOf(body.Info(), cl.Recv) == "Timer.timer" {
+						okRearm = g.GuardedBy(cl.Loc, notCancelled) && g.HeldAt(cl.Loc)[muName]
+					}
+				}
+				// the cancelled edge leaves the loop
+				leaves := false
+				for _, r := range returnsIn(body) {
+					if g.GuardedBy(r.Loc, timerCancelledIs(true)) {
+						leaves = true
+					}
+				}
+				c.Check(R, ctor+"$fn/rearm-only-when-not-cancelled", a.Clause.Pos(), okRearm && leaves, keyf("Reset on the not-cancelled edge with Timer.mu held: %v; the cancelled edge returns: %v", okRearm, leaves))
+			}
+		}
+	}
+	if rf := c.Fn(R, "utils.(*Timer).Refresh"); rf != nil {
+		g := rf.Graph()
+		ok, n, revived := true, 0, false
+		for _, cl := range rf.Calls() {
+			isTimerOp := (cl.Name == "Stop" || cl.Name == "Reset") && cl.Recv != nil && fieldOf(rf.Info(), cl.Recv) == "Timer.timer"
+			isRestart := cl.Go && fieldOf(rf.Info(), cl.Expr.Fun) == "Timer.fn"
+			if isTimerOp || isRestart {
+				n++
+				ok = ok && g.HeldAt(cl.Loc)[muName]
+				if isRestart || cl.Name == "Reset" {
+					revived = revived || !g.GuardedBy(cl.Loc, notCancelled)
+				}
+			}
+		}
+		c.Check(R, "utils.(*Timer).Refresh/under-Timer.mu", rf.Pos(), ok && n >= 3, keyf("%d timer operations, all with Timer.mu held: %v", n, ok))
+		c.Check(R, "utils.(*Timer).Refresh/cancelled-stays-cancelled", rf.Pos(), !revived, "the restart of the waiter and the Reset are on the not-cancelled edge: refreshing a cancelled timer does nothing")
+	}
 }
